@@ -244,14 +244,33 @@ def check_clean_stop(case, res, out):
             if stop.get('k') == 0:
                 out['probes']['stop_before_first_example'] = 1
         if st is not None and case.get('strict_cancel'):
-            _check_strict_cancel(case, ev, st, pn, out)
+            if stop['kind'] == 'cycle_gc':
+                # the iterator is only finalised by the scheduled gc.collect()
+                st = next((e for e in ev if e[2] == 'gc'), st)
+            _check_strict_cancel(case, ev, st, pn, out, res)
 
 
-def _check_strict_cancel(case, ev, st, pn, out):
+def _check_strict_cancel(case, ev, st, pn, out, res):
     """Consumer-priority shutdown: computations starting after the stop must
     belong to a future that was already RUNNING (pool paths); at most one may
-    start on the single-thread path."""
+    start on the single-thread path.
+
+    Cancellation is not atomic: if the consumer had to wait for an internal
+    lock held by a parked worker (or, in an edited schedule, was runnable but
+    not chosen) after the stop, workers legitimately ran in that window and
+    futures that turned RUNNING after that moment are excused.  Blocking in
+    join() is not such an excuse: by then everything pending must have been
+    cancelled."""
     s = st[0]
+    excuse_from = None
+    for seq, phase, what in res.get('main_blocks') or ():
+        if seq >= s and what == 'lock':
+            excuse_from = seq if excuse_from is None else min(excuse_from, seq)
+    for seq, phase in res.get('main_yields') or ():
+        if seq >= s:
+            excuse_from = seq if excuse_from is None else min(excuse_from, seq)
+    if excuse_from is not None:
+        out['probes']['consumer_waited_for_worker_lock_during_shutdown'] = 1
     pool = pargen.is_pool(par_stage(case['desc']))
     if pool:
         last_running = {}
@@ -264,7 +283,7 @@ def _check_strict_cancel(case, ev, st, pn, out):
                     bad.append(e)
                 else:
                     r = last_running.get(e[1])
-                    if r is None or r > s:
+                    if r is None or (r > s and (excuse_from is None or r < excuse_from)):
                         bad.append(e)
         if bad:
             out['violations'].append(viol(
@@ -275,7 +294,8 @@ def _check_strict_cancel(case, ev, st, pn, out):
     else:
         first_stage = case['desc']['stages'][0]['id']
         n = sum(1 for e in ev if e[2] == 'call' and e[0] > s and e[3] == first_stage)
-        if n > 1:
+        if n > 1 and not (res.get('main_yields') and
+                          any(q >= s for q, _ in res['main_yields'])):
             out['violations'].append(viol(
                 'uncancelled_work_started', 'uncancelled_work_started:%s' % pn,
                 '%d examples were pulled after the consumer stopped (at most one '
